@@ -6,6 +6,7 @@ import DM.Drv.Enc
 import DM.Drv.Dec
 import DM.Drv.C17
 import DM.Drv.RS
+import DM.Spec.Build
 open DM.Drv
 
 def dispatch (args : List String) : String :=
@@ -41,7 +42,16 @@ partial def loop (hin : IO.FS.Stream) (hout : IO.FS.Stream) : IO Unit := do
   hout.putStrLn (dispatch args)
   loop hin hout
 
-def main : IO Unit := do
-  let hin ← IO.getStdin
+def main (args : List String) : IO Unit := do
   let hout ← IO.getStdout
-  loop hin hout
+  match args with
+  | ["gen-c04", seed, n] =>
+    -- generator mode: legal streams from the reference builder, self-checked with the reference decoder
+    for (cw, bytes) in DM.Spec.Build.genStreams seed.toNat! n.toNat! do
+      let self := match DM.Spec.Stream.decode cw with
+        | .ok d => if d.bytes == bytes then "ok" else "spec-disagrees"
+        | .error e => "spec-rejects:" ++ e.replace " " "_"
+      hout.putStrLn s!"{hex cw} {hex bytes} {self}"
+  | _ =>
+    let hin ← IO.getStdin
+    loop hin hout
